@@ -48,3 +48,206 @@ func (c *Ctx) Relativize(conds []*Term) []*Term {
 	}
 	return out
 }
+
+// autoPatterns picks E-matching triggers for a quantifier over v: the smallest
+// select / uninterpreted-application subterms that contain v (each is an
+// alternative pattern). Solvers infer poor triggers when array indices contain
+// bit-vector arithmetic.
+func autoPatterns(body, v *Term) []*Term {
+	contains := map[int]bool{}
+	var has func(t *Term) bool
+	has = func(t *Term) bool {
+		if r, ok := contains[t.ID]; ok {
+			return r
+		}
+		r := t == v
+		for _, a := range t.Args {
+			if has(a) {
+				r = true
+			}
+		}
+		contains[t.ID] = r
+		return r
+	}
+	var cands []*Term
+	seen := map[int]bool{}
+	var walk func(t *Term)
+	walk = func(t *Term) {
+		if seen[t.ID] || !has(t) {
+			return
+		}
+		seen[t.ID] = true
+		if t.Op == "forall" || t.Op == "exists" {
+			return
+		}
+		for _, a := range t.Args {
+			walk(a)
+		}
+		if t.Op == "select" || t.Op == "app" {
+			// minimal: no proper subterm that is itself a candidate containing v
+			minimal := true
+			for _, a := range t.Args {
+				if has(a) && hasCandidate(a, has) {
+					minimal = false
+				}
+			}
+			if minimal {
+				cands = append(cands, t)
+			}
+		}
+	}
+	walk(body)
+	if len(cands) > 4 {
+		cands = cands[:4]
+	}
+	return cands
+}
+
+func hasCandidate(t *Term, has func(*Term) bool) bool {
+	if !has(t) {
+		return false
+	}
+	if t.Op == "select" || t.Op == "app" {
+		return true
+	}
+	for _, a := range t.Args {
+		if hasCandidate(a, has) {
+			return true
+		}
+	}
+	return false
+}
+
+// pcHas reports whether t is one of the top-level conjuncts of pc.
+func pcHas(pc, t *Term) bool {
+	if pc == t {
+		return true
+	}
+	if pc.Op == "and" {
+		for _, a := range pc.Args {
+			if a == t {
+				return true
+			}
+		}
+	}
+	return false
+}
+
+// NegSkolem returns the negation of goal with its top-level universal
+// quantifiers skolemized (fresh constants for the bound variables). The
+// solvers do much better on this form than on (not (forall ...)).
+func (c *Ctx) NegSkolem(goal *Term) *Term {
+	switch goal.Op {
+	case "and":
+		parts := make([]*Term, len(goal.Args))
+		for i, g := range goal.Args {
+			parts[i] = c.NegSkolem(g)
+		}
+		return c.Or(parts...)
+	case "forall":
+		m := map[*Term]*Term{}
+		for _, v := range goal.Vars {
+			m[v] = c.Fresh("sk$"+v.Name, v.Sort)
+		}
+		return c.NegSkolem(c.Subst(goal.Args[0], m))
+	case "=>":
+		return c.And(goal.Args[0], c.NegSkolem(goal.Args[1]))
+	}
+	return c.Not(goal)
+}
+
+// frameInstances returns ground instances of the frame axiom of the opaque
+// "at" functions: for every ground application f(B2, q, r...) reachable from
+// the asserted terms (looking through defined functions) and every other
+// ground byte array B used with such functions,
+//
+//	(exists i in [q, q+ext(B,q)): B[i] != B2[i])  or  f(B2,q,r...) = f(B,q,r...)
+//
+// with the existential skolemized. This replaces the quantified axiom.
+func frameInstances(c *Ctx, asserts []*Term) []*Term {
+	if len(c.OpaqueExt) == 0 {
+		return nil
+	}
+	type appKey struct{ id int }
+	apps := map[int]*Term{}
+	arrs := map[int]*Term{}
+	seen := map[int]bool{}
+	var walk func(t *Term, depth int)
+	walk = func(t *Term, depth int) {
+		if seen[t.ID] {
+			return
+		}
+		seen[t.ID] = true
+		if t.Op == "app" {
+			if _, ok := c.OpaqueExt[t.Name]; ok {
+				if !t.Args[0].Bound {
+					arrs[t.Args[0].ID] = t.Args[0]
+				}
+				if !t.Bound {
+					apps[t.ID] = t
+				}
+			} else if d := c.Funcs[t.Name]; d != nil && d.DefBody != nil && !t.Bound && depth < 4 {
+				m := map[*Term]*Term{}
+				for i, v := range d.DefVars {
+					m[v] = t.Args[i]
+				}
+				walk(c.Subst(d.DefBody, m), depth+1)
+			} else if d != nil && d.DefBody != nil && depth < 4 {
+				// bound application of a defined function: its body may still name ground arrays
+				m := map[*Term]*Term{}
+				for i, v := range d.DefVars {
+					m[v] = t.Args[i]
+				}
+				walk(c.Subst(d.DefBody, m), depth+1)
+			}
+		}
+		for _, a := range t.Args {
+			walk(a, depth)
+		}
+	}
+	for _, a := range asserts {
+		walk(a, 0)
+	}
+	var out []*Term
+	ids := make([]int, 0, len(apps))
+	for id := range apps {
+		ids = append(ids, id)
+	}
+	sortInts(ids)
+	aids := make([]int, 0, len(arrs))
+	for id := range arrs {
+		aids = append(aids, id)
+	}
+	sortInts(aids)
+	if len(ids)*len(aids) > 400 {
+		return nil
+	}
+	for _, id := range ids {
+		app := apps[id]
+		ext := c.Funcs[c.OpaqueExt[app.Name]]
+		if ext == nil {
+			continue
+		}
+		B2, q := app.Args[0], app.Args[1]
+		for _, aid := range aids {
+			B := arrs[aid]
+			if B == B2 {
+				continue
+			}
+			args := append([]*Term{B}, app.Args[1:]...)
+			other := c.App(c.Funcs[app.Name], args...)
+			sk := c.Fresh("sk$frame", IdxSort)
+			differ := c.And(c.BVCmp("bvsle", q, sk), c.BVCmp("bvslt", sk, c.BVBin("bvadd", q, c.App(ext, B, q))), c.Distinct(c.Select(B, sk), c.Select(B2, sk)))
+			out = append(out, c.Or(differ, c.Eq(app, other)))
+		}
+	}
+	return out
+}
+
+func sortInts(a []int) {
+	for i := 1; i < len(a); i++ {
+		for j := i; j > 0 && a[j-1] > a[j]; j-- {
+			a[j-1], a[j] = a[j], a[j-1]
+		}
+	}
+}
